@@ -69,6 +69,20 @@ PROPS = {
         "assumptions": ["dial_addr, when set, fully replaces host and port of the URL (port defaults to the scheme default)", "port 0 is outside the grammar (it is treated as 'no port')"],
         "explanation": "target/serverName theorems over Gen.tryTrimIpv6Brackets and Model.C18 mirrors under SplitContract; driver runs the executable model; harness diffs the shims and observes real dials.",
     },
+    "C13": {
+        "lean_targets": ["MosdnsVerif.Props.C13"],
+        "obligation_files": ["MosdnsVerif/Props/C13.lean"],
+        "namespaces": ["Props.C13"],
+        "driver": "drv_C13",
+        "gen_facts": ["c13SortSameBaseCmp", "c13SortAppendsWhenNotContained", "c13SortCallsSort", "c13SortReturns", "c13LessByAddr", "c13ContainsCmp", "c13ContainsShape", "c13AppendMasksTo6", "c13AppendV4BitsOffset"],
+        "level": "proof",
+        "level_text": "Machine-checked proof (Lean 4): for every multiset of stored (masked) prefixes and every ordering sorted by base address - whatever the unstable sort and the load order did - the merge loop of Sort followed by the last-base-at-or-before lookup of Contains answers true exactly when some prefix covers the address (induction over the merge with a chain invariant; laminarity of aligned power-of-two blocks proved from divisibility), and IPv4 prefixes/addresses behave as their IPv4-mapped forms. The operators, statement shapes and the +96 offset the model was written from are regenerated facts with a guard theorem; differential runs load the same sets through Append, the text loader and ip_set and compare with the model and with an independent bit-level oracle.",
+        "level_note": "Trusted: net/netip parsing, Masked, Compare and Contains (the model defines them arithmetically on 128-bit naturals; the correspondence compares), sort.Sort producing an ordering by Less, and that the binary search returns the last index whose base is <= the address on a list sorted by base (the model uses that specification; the loop's comparison operator and assignments are guarded facts). Zoned addresses are outside the model.",
+        "technique": "Lean 4 proof (merge-loop invariant + laminar blocks) with T2-regenerated facts + differential correspondence",
+        "trusted": ["modelled, not verified: net/netip (ParsePrefix, Masked, Compare, Contains), sort.Sort, the binary-search loop (specified as 'last base <= address')"],
+        "assumptions": ["addresses carry no IPv6 zone"],
+        "explanation": "Model.C13 mergeStep/containsRev over intervals; Props.C13.contains_correct; guard over Gen.Facts.c13*.",
+    },
 }
 
 # Reasons for properties that are not claimed (yet).
